@@ -21,30 +21,49 @@ def firstViolation : List (Bool × String) → Option String
 /-! ### one `Exons.Add` call -/
 
 /-- `accepted`: the call returned no error; `old` the receiver's exons before the call,
-    `afterOld` the same cells read after it, `res` the returned slice, `args` the arguments -/
-def addClauses (accepted : Bool) (old afterOld res args : List Exon) : List (Bool × String) :=
+    `afterOld` the same cells read after it, `res` the returned slice, `args` the arguments;
+    `heldOld` / `heldAfter`: what a second variable `held` (an earlier value of `s`, e.g. taken
+    before `s = s[:0]`, so that the receiver's spare capacity is `held`'s live data) reads before
+    and after the call — the previous exon set a rejected `Add` must leave as it was -/
+def addClauses (accepted : Bool) (old afterOld res args heldOld heldAfter : List Exon) : List (Bool × String) :=
   [ (!accepted && decide (afterOld ≠ old), "rejected-Add-changed-the-receiver"),
     (!accepted && decide (res ≠ old), "rejected-Add-does-not-return-the-old-slice"),
+    (!accepted && decide (heldAfter ≠ heldOld), "rejected-Add-changed-a-held-slice-of-the-same-array"),
     (accepted && !sortedDisjoint res, "accepted-exons-not-sorted-disjoint"),
     (accepted && !(res.isPerm (old ++ args)), "accepted-exons-are-not-old-plus-new") ]
 
-def addStatement (accepted : Bool) (old afterOld res args : List Exon) : Option String :=
-  firstViolation (addClauses accepted old afterOld res args)
+def addStatement (accepted : Bool) (old afterOld res args heldOld heldAfter : List Exon) : Option String :=
+  firstViolation (addClauses accepted old afterOld res args heldOld heldAfter)
 
 /-! ### a transcript after one update -/
 
+/-- `A` and `Z`: an `Add` on (a re-slice of) `t.Exons()` whose result is dropped — not an update
+    of the transcript -/
+def dropped (kind : String) : Bool := kind == "A" || kind == "Z"
+
+/-- the exons the transcript must show after an accepted operation: the ones given to `SetExons`
+    (`S`: the arguments; `R`: the previous set plus the arguments); after an `Add` whose result is
+    dropped, the set accepted last, i.e. the previous one -/
+def givenExons (kind : String) (args prev : List Exon) : List Exon :=
+  if kind == "R" then prev ++ args else if dropped kind then prev else args
+
 /-- Operation kinds: `S` = `SetExons(args)`, `A` = `t.Exons().Add(args)` with the result dropped,
-    `R` = `Add` then `SetExons` of the result.  `prev` is the exon set the transcript showed
+    `R` = `Add` then `SetExons` of the result, `Z` = `t.Exons()[:j].Add(args)` with the result
+    dropped (the reset idiom for `j = 0`).  `prev` is the exon set the transcript showed
     before the operation, `es`/`is` the exons and introns it shows now, `tstart, tend, tlen` its
     `Start/End/Len`, `utr` the pieces `(UTR5, CDS, UTR3)` if all three are defined, `sh` the
-    rendering of `UTR5start,UTR5end,UTR3start,UTR3end`.  Nothing is demanded after an accepted `A`
-    (the transcript was not updated). -/
+    rendering of `UTR5start,UTR5end,UTR3start,UTR3end`.
+
+    After a rejected operation of any kind the transcript shows exactly the previous exon set.
+    After every operation — `A` and `Z` included: the transcript is still one whose exons are
+    accepted — its exons and introns alternate and tile it and the UTR/CDS clauses hold; after an
+    accepted one its exons are sorted, non-overlapping, on the transcript, start at 0 and are (a
+    permutation of) `givenExons`. -/
 def txClauses (coding : Bool) (node : Node) (loc : Chain) (cdsStart cdsEnd : Int)
     (kind : String) (accepted : Bool) (args prev es : List Exon) (is : List Intron)
     (tstart tend tlen : Int) (utr : Option (Piece × Piece × Piece)) (sh : String) : List (Bool × String) :=
-  let live := !(kind == "A" && accepted)
-  let acc := live && accepted
-  let cod := live && coding && node.oriented
+  let acc := accepted
+  let cod := coding && node.oriented
   let o := orientProduct (node :: loc)
   let u := utr.getD ((0, 0), (0, 0), (0, 0))
   let order := utrOrder o u.1 u.2.1 u.2.2
@@ -53,11 +72,12 @@ def txClauses (coding : Bool) (node : Node) (loc : Chain) (cdsStart cdsEnd : Int
     (acc && !(sortedDisjoint es), "accepted-exons-not-sorted-disjoint"),
     (acc && !(es.all (·.loc == 1)), "accepted-exons-not-on-the-transcript"),
     (acc && decide (startOf es ≠ 0), "accepted-exons-do-not-start-at-zero"),
-    (acc && !(es.isPerm (if kind == "R" then prev ++ args else args)), "accepted-exons-are-not-the-given-ones"),
-    (live && !(alternate es is), "exons-and-introns-do-not-alternate"),
-    (live && !(intronsFit es is), "intron-is-not-the-gap-between-exons"),
-    (live && nonNeg es && !(tiles 0 tlen (interleave es is)), "exons-and-introns-do-not-tile-the-transcript"),
-    (live && (decide (tstart ≠ node.start) || decide (tend ≠ tstart + tlen)), "transcript-start-end-len-inconsistent"),
+    (acc && !(es.isPerm (givenExons kind args prev)),
+      if dropped kind then "dropped-Add-changed-the-accepted-exon-set" else "accepted-exons-are-not-the-given-ones"),
+    (!(alternate es is), "exons-and-introns-do-not-alternate"),
+    (!(intronsFit es is), "intron-is-not-the-gap-between-exons"),
+    (nonNeg es && !(tiles 0 tlen (interleave es is)), "exons-and-introns-do-not-tile-the-transcript"),
+    ((decide (tstart ≠ node.start) || decide (tend ≠ tstart + tlen)), "transcript-start-end-len-inconsistent"),
     (cod && utr.isNone, "UTR-or-CDS-missing-for-an-oriented-transcript"),
     (cod' && decide (u.2.1 ≠ (cdsStart, cdsEnd)), "CDS-is-not-CDSstart-CDSend"),
     (cod' && !(abuts 0 tlen order), "UTR-CDS-do-not-tile-in-orientation-order"),
